@@ -1,10 +1,12 @@
 import AC.Drv.Proto
 import AC.CalcModel
-/-! driver handler for C13: `c13 <expr hex-encoded> <impl outcome ok|err|divzero|panic|panic-other> <impl value or ->`
+/-! driver handler for C13: `c13 <expr hex-encoded> <impl outcome ok|err|divzero|panic|panic-other|timeout> <impl value or ->`
 
 * correspondence: the model `AC.Calc.eval` (run through the same machine `evalWith`, with a guard
   that refuses exponents the Lean runtime cannot compute) against the outcome/value of `calc.Eval`;
-  `divzero` = the error "division by zero", `err` = any other error, `panic…` = a recovered panic.
+  `divzero` = the error "division by zero", `err` = any other error, `panic…` = a recovered panic,
+  `timeout` = `calc.Eval` did not return within the harness's per-case budget (no model comparison;
+  spec failure `terminates` for well-formed-without-division-by-zero and for malformed inputs).
 * spec on the implementation's own output, independent of the model: `classify` reads the
   expression by the property's grammar (decimal literal without superfluous leading zero, `0x…`,
   `0b…`, optional leading minus, operators `+ - * / ^`, spaces) and `evalE` is a recursive-descent
@@ -186,6 +188,14 @@ def handleC13 (f : List String) : Res :=
       match specV with
       | some .huge => { tag := "skipped-huge" }
       | _ =>
+      if implO == "timeout" then
+        let (applies, ctag) : Bool × String := match cls, specV with
+          | .wf _ _, some (.val _) => (true, "wf")
+          | .wf _ _, _ => (false, "wf-divzero")
+          | .malformed w, _ => (true, s!"malformed,why={w}")
+          | .outside w, _ => (false, s!"outside,why={w}")
+        specIf "terminates" (!applies) { tag := s!"{ctag},impl=timeout" }
+      else
       match AC.Calc.evalWith applyG s with
       | .halt .huge => { tag := "skipped-huge" }
       | m =>
